@@ -530,6 +530,15 @@ fn panic_fp(out: &str) -> String {
     if msg.contains("Expected IO type found") {
         return "panic:ICE:run_io-on-generalised-IO-type".into();
     }
+    // one fingerprint per panic SITE where the message embeds a type (variable names vary)
+    if msg.contains("Expected record, got") {
+        // vm/src/compiler.rs:1107
+        return "panic:compiler:record-pattern-on-non-record-type".into();
+    }
+    if msg.contains("Unexpected type") && msg.contains("is not a function") {
+        // vm/src/core/mod.rs:1551
+        return "panic:core:over-application-through-type-variable".into();
+    }
     // `called `Result::unwrap()` on an `Err` value: "<the interesting part>"`
     if msg.starts_with("called `") {
         if let Some(i) = msg.find("value: ") {
